@@ -484,6 +484,8 @@ pub fn xfer(prop: &'static str, tier: Tier, w: &Arc<World>) -> Scn {
                     fc.fate_w = [30, 3, 2, 2, 0, 0];
                     fc.spare_requests = true;
                     fc.budget = 1 + d.range("swarm.fault.budget", 3);
+                    fc.recv_err_w = if d.chance("swarm.fault.recv_err", 1, 3) { 40 } else { 0 };
+                    fc.send_err_w = if d.chance("swarm.fault.send_err", 1, 3) { 40 } else { 0 };
                 }
             }
             if mode >= 2 {
